@@ -39,6 +39,8 @@ U("parse_boolean", harness="harness/setopt_num.c", entry="h_parse_boolean", func
   defs={"quick": ["-DTOKN=5"], "thorough": ["-DTOKN=7"]}, cbmc={"quick": unw(8), "thorough": unw(10)},
   label="bounded(|token|<=5 quick, 7 thorough; all bytes)", props=["C04", "C02"], cost=5)
 
+U("setopt_int_states", harness="harness/setopt_num.c", entry="h_setopt_int_unconvertible_states", func="cfg_setopt", defs={"quick": ["-DTOKN=4"]}, cbmc=unw(24) + NOOOM,
+  label="bounded(4 literal option states: pristine default, emptied, list, list holding defaults): finding unit", props=["C10", "C04", "C06", "C02"], cost=10)
 U("setopt_float_abstract", harness="harness/setopt_num.c", entry="h_setopt_float_abstract", func="cfg_setopt",
   defs={"quick": ["-DTOKN=4", "-DCFGV_ABSTRACT_NUM", "-DCFGV_NO_REF_STRTOL"], "thorough": ["-DTOKN=8", "-DCFGV_ABSTRACT_NUM", "-DCFGV_NO_REF_STRTOL"]},
   cbmc={"quick": unw(7), "thorough": unw(11)},
@@ -166,6 +168,8 @@ U("lex_scan_begin", tu="lexer", harness="harness/lex_hlp.c", entry="h_scan_begin
 U("lex_include", tu="lexer", harness="harness/lex_hlp.c", entry="h_lexer_include", func="cfg_lexer_include", cbmc=unw(8) + NOOOM + LEAK,
   label="proof (loop-free; every stack depth 0..10, search path present or not, resolution / open failing or not)",
   props=["C13", "C17", "C07", "C06", "C08", "C02"], cost=10, trusted=HLPTRUST, **FLEXC)
+U("lex_abort_in_include", tu="lexer", harness="harness/lex_hlp.c", entry="h_abort_inside_include", func="cfg_scan_fp_begin, cfg_lexer_include, cfg_scan_fp_end (history of three calls)", cbmc=unw(8) + NOOOM,
+  label="proof (loop-free): finding unit", props=["C08", "C13", "C07", "C02"], cost=5, trusted=HLPTRUST, **FLEXC)
 U("lex_eof", tu="lexer", harness="harness/lex_hlp.c", entry="h_eof_action", func="<<EOF>> rule actions", cbmc=unw(8) + NOOOM + LEAK,
   label="proof (loop-free; every context, every stack depth, own / foreign handle)", props=["C13", "C08", "C07", "C06", "C03", "C02"], cost=10, trusted=HLPTRUST, **FLEXC)
 
